@@ -10,7 +10,7 @@ use serde_json::json;
 use std::collections::BTreeSet;
 use txtpp::Mode;
 
-pub const SIGMA_CLEAN: [&str; 18] = [
+pub const SIGMA_CLEAN: [&str; 19] = [
     "+TXTPP#temp sub/t3.out",
     "-TXTPP#temp ./t4.out",
     "-TXTPP#include missing.txt",
@@ -29,6 +29,7 @@ pub const SIGMA_CLEAN: [&str; 18] = [
     "TXTPP#run true",
     "-TXTPP#",
     "-TXTPP#temp h.txtpp.txt",
+    "TXTPP#temp keep.txt",
 ];
 
 fn helpers_clean() -> Tree {
@@ -210,6 +211,33 @@ fn mini_histories(rep: &Report, prop: &str, b: &Bench, help: &Tree, src: &[u8]) 
                 if !fresh_ok {
                     return;
                 }
+                // the output path is a symbolic link to a file elsewhere (txtpp writes and verifies through it)
+                if tn {
+                    reset_tree(b, help, src);
+                    let real = b.base.join("sub/real.out");
+                    std::fs::write(&real, b"old\n").unwrap();
+                    std::os::unix::fs::symlink("sub/real.out", b.base.join(OUT)).unwrap();
+                    let rb = b.run_no_reset(Mode::Build, true, tn);
+                    let r = b.run_no_reset(Mode::Verify, true, tn);
+                    rep.tv(2);
+                    rep.tr(1);
+                    rep.add("verify_through_a_linked_output", 1);
+                    if rb.v == V::Ok && r.v != V::Ok {
+                        rep.violate("verify-false-fail", format!("source {:?}: the output path is a symbolic link; verify fails right after a build: {}", show(src), r.v.kind()), rj(prop, src, "linked-output"));
+                    }
+                    if rb.v == V::Ok {
+                        let mut x = std::fs::read(&real).unwrap_or_default();
+                        x.push(b'Z');
+                        std::fs::write(&real, &x).unwrap();
+                        let r = b.run_no_reset(Mode::Verify, true, tn);
+                        rep.tv(1);
+                        if r.v == V::Ok {
+                            rep.violate("verify-false-pass", format!("source {:?}: the output path is a symbolic link; verify passes with one byte appended to the file behind it", show(src)), rj(prop, src, "linked-output"));
+                        }
+                    }
+                    reset_tree(b, help, src);
+                    let _ = b.run_no_reset(Mode::Build, true, tn);
+                }
                 rep.add("verify_after_build_sources", 1);
                 set_sentinel(&b.base);
                 let before = snapshot(&b.base);
@@ -259,7 +287,7 @@ fn mini_histories(rep: &Report, prop: &str, b: &Bench, help: &Tree, src: &[u8]) 
             }
             "C08" => {
                 rep.add("prestate_sources", 1);
-                for (what, bytes) in [("stale text", &b"STALE\n"[..]), ("not UTF-8", &b"\x68\xc3"[..]), ("empty", &b""[..])] {
+                for (what, bytes) in [("stale text", &b"STALE\n"[..]), ("not UTF-8", &b"\x68\xc3"[..]), ("empty", &b""[..]), ("CRLF text", &b"stale\r\nlines\r\n"[..])] {
                     reset_tree(b, help, src);
                     for g in &generated {
                         std::fs::write(b.base.join(g), bytes).unwrap();
@@ -346,7 +374,7 @@ pub fn run_into(rep: &Report, prop: &str) {
     let max_len = if rep.thorough() { if prop == "C07" || prop == "C10" { 5 } else { 4 } } else { 3 };
     let help = helpers_clean();
     rep.set("source_enumeration_alphabet", json!(SIGMA_CLEAN));
-    rep.set("source_enumeration_bound", json!(format!("all sources of <= {max_len} lines over the 18-line alphabet above (directive look-alikes as continuation lines of multi-line directives, temp directives naming pre-existing files)")));
+    rep.set("source_enumeration_bound", json!(format!("all sources of <= {max_len} lines over the 19-line alphabet above (directive look-alikes as continuation lines of multi-line directives, temp directives naming pre-existing files)")));
     sharded_dyn(rep, par_threads(), |_k, _n, next, rep| {
         let b = Bench::new(&help);
         let stop = || rep.over_cap();
@@ -354,6 +382,12 @@ pub fn run_into(rep: &Report, prop: &str) {
             let lines: Vec<&str> = seq.iter().map(|&i| SIGMA_CLEAN[i]).collect();
             let src = build_source(&lines, false, true);
             check_source(rep, prop, &b, &help, &src);
+            // short sources also without the final newline (a one-line source then holds no line ending at all)
+            if lines.len() <= 2 && !lines.is_empty() && lines.last() != Some(&"") {
+                let src = build_source(&lines, false, false);
+                check_source(rep, prop, &b, &help, &src);
+                rep.add("sources_without_final_newline", 1);
+            }
             rep.st(1);
             rep.add("sources_enumerated", 1);
             if seq == [5, 7] {
